@@ -772,12 +772,17 @@ class Interp:
             return t[1]
         if t[0] == 'upd':
             return self.class_of(t[1])
+        if t[0] == 'copy':
+            return self.class_of(t[2])
         return None
 
     def getattr_term(self, base, name, frame, cond, depth=None):
         # see through functional updates: the receiver stays `base`
         root = base
-        while root[0] == 'upd':
+        while root[0] in ('upd', 'copy'):
+            if root[0] == 'copy':
+                root = root[2]
+                continue
             if root[2] == 'attr' and root[3] == name:
                 return root[4]
             root = root[1]
@@ -1353,6 +1358,9 @@ class Interp:
 
     # ------------------------------------------------------------------
     def fold_builtin(self, name, pos, kws, frame, cond):
+        if name in ('copy.copy', 'copy.deepcopy') and len(pos) == 1 and not kws:
+            return ('copy', 'deep' if name.endswith('deepcopy') else 'shallow',
+                    pos[0])
         if name == 'len' and len(pos) == 1:
             items = self.iter_items(pos[0]) if pos[0][0] != 'call' else None
             if items is not None:
